@@ -322,6 +322,22 @@ class _AnyNode:
 _ANY = _AnyNode()
 
 
+def _no_option_given(t, pol, carrier):
+    """Does the guard (test t taken with polarity pol) say "no option was given"?  True / False / None (another kind
+    of test).  Negations are folded, both operand orders and == / != None are read."""
+    while isinstance(t, ast.UnaryOp) and isinstance(t.op, ast.Not):
+        t, pol = t.operand, not pol
+    if isinstance(t, ast.Name) and t.id == carrier:
+        return not pol                  # `if carrier:` is "an option was given"
+    if isinstance(t, ast.Compare) and len(t.ops) == 1 and isinstance(t.ops[0], (ast.Is, ast.IsNot, ast.Eq, ast.NotEq)):
+        l_, r_ = t.left, t.comparators[0]
+        for a_, b_ in ((l_, r_), (r_, l_)):
+            if isinstance(a_, ast.Name) and a_.id == carrier and isinstance(b_, ast.Constant) and b_.value is None:
+                isnone = isinstance(t.ops[0], (ast.Is, ast.Eq))
+                return pol if isnone else (not pol)
+    return None
+
+
 def _defaulting_ok(fi, a, carrier, stagef):
     from .common import guards_of
     if not isinstance(a, ast.Assign):
@@ -329,15 +345,9 @@ def _defaulting_ok(fi, a, carrier, stagef):
     # x = {...} if x is None else x   /   x = x if x else {...}   (conditional-expression form of the idiom)
     if isinstance(a.value, ast.IfExp) and not guards_of(fi, a):
         t, body, orelse = a.value.test, a.value.body, a.value.orelse
-        neg = False
-        if isinstance(t, ast.UnaryOp) and isinstance(t.op, ast.Not):
-            t, neg = t.operand, True
-        is_none = isinstance(t, ast.Compare) and len(t.ops) == 1 and isinstance(t.left, ast.Name) \
-            and t.left.id == carrier and isinstance(t.comparators[0], ast.Constant) \
-            and t.comparators[0].value is None and isinstance(t.ops[0], (ast.Is, ast.IsNot))
-        truthy = isinstance(t, ast.Name) and t.id == carrier
-        if is_none or truthy:
-            none_branch_is_body = (is_none and isinstance(t.ops[0], ast.Is)) != neg if is_none else neg
+        ng = _no_option_given(t, True, carrier)
+        if ng is not None:
+            none_branch_is_body = ng
             dflt, keep = (body, orelse) if none_branch_is_body else (orelse, body)
             keep_ok = (isinstance(keep, ast.Name) and keep.id == carrier) or (
                 isinstance(keep, ast.Call) and unparse(keep) in ('%s.copy()' % carrier, 'dict(%s)' % carrier))
@@ -359,20 +369,10 @@ def _defaulting_ok(fi, a, carrier, stagef):
     if not guards:
         return 'unconditional reassignment'
     t, pol = guards[-1]
-    # the mirrored spelling:  if carrier: <copy>  else: <default>   /   if carrier is not None: ...
-    if isinstance(t, ast.Name) and t.id == carrier:
-        t, pol = ast.UnaryOp(op=ast.Not(), operand=t), not pol
-    elif isinstance(t, ast.Compare) and len(t.ops) == 1 and isinstance(t.ops[0], ast.IsNot) \
-            and isinstance(t.left, ast.Name) and t.left.id == carrier \
-            and isinstance(t.comparators[0], ast.Constant) and t.comparators[0].value is None:
-        t, pol = ast.Compare(left=t.left, ops=[ast.Is()], comparators=t.comparators), not pol
-    is_none = isinstance(t, ast.Compare) and len(t.ops) == 1 and isinstance(t.ops[0], ast.Is) \
-        and isinstance(t.left, ast.Name) and t.left.id == carrier \
-        and isinstance(t.comparators[0], ast.Constant) and t.comparators[0].value is None
-    is_not = isinstance(t, ast.UnaryOp) and isinstance(t.op, ast.Not) and isinstance(t.operand, ast.Name) \
-        and t.operand.id == carrier
-    if not (is_none or is_not):
+    nonegiven = _no_option_given(t, pol, carrier)
+    if nonegiven is None:
         return 'reassigned under a condition that is not "no option given": %s' % unparse(t)[:60]
+    pol = nonegiven
     if pol:
         # `if carrier is None:` / `if not carrier:` branch -> literal default
         v = _literal(a.value)
